@@ -58,6 +58,18 @@ CHECKS = {
         "Full matrix protection states x callers x operations with snapshots of memory and storage around each call, both states; also checked directly against the property.",
    note=NOTE_LOC + " Operations issued from rule actions are covered only as far as they go through the same Location methods.",
    technique="Lean 4 proof over a hand-written model + guard table regenerated from the Go source + exhaustive matrix correspondence check", ref="5 (C19)"),
+ "C03": dict(
+   text="Lean theorems (Props/C03.lean) by structural induction over query programs: empty = identity, and = left-to-right composition, or = per-binding concatenation with short circuit, not = filter, pattern = every extension by a matching fact "
+        "after substitution, code-term result interpretation, and the compositional law exec_append; parse order. " + TIE_LOC +
+        "Random query trees (depth <= 4/6, arity 0-3, shared and fresh variables, all shortCircuit spellings, code templates) over 0-6 facts with and without a parent, through Location.Query and as rule conditions.",
+   note=NOTE_LOC + " Code terms: only the closed template family is evaluated by the model; otto is trusted.",
+   technique="Lean 4 proof (structural induction over the query AST) over a hand-written model + differential correspondence check", ref="5 (C03)"),
+ "C04": dict(
+   text="Lean theorems (Props/C04.lean) about the work tree of event processing: execution count = sum over dispatched rules, when-bindings and condition bindings of |actions|; each action sees exactly the bindings plus event/location/ruleId; "
+        "values = values of complete nodes; a failing action is isolated unless serialActions. " + TIE_LOC +
+        "Rule sets of 0-4 rules x 1-3 actions x conditions yielding 0-3 bindings x multi-binding array `when`s; whole trees compared, and the counting property checked directly on the real trees.",
+   note=NOTE_LOC + " The goroutine fan-out of concurrent actions and the mutex around Values are exercised but not modelled (C12); trees aborted by a failing condition are compared up to the abort (rule visiting order is Go's map order).",
+   technique="Lean 4 proof over a hand-written model + differential correspondence check", ref="5 (C04)"),
  "C05": dict(
    text="Lean 4 theorems (Props/C05.lean, 13): the matcher model is sound and complete w.r.t. the partial-match specification pmv for all patOK patterns and dataOK data (unbounded; arrays with "
         "backtracking included), total, never nonGround on ground input, result set invariant under deep permutations of the pattern; negative theorem for repeated variables over structured values. "
